@@ -33,7 +33,11 @@ TRelease == IsEvent("Release") /\ Release(Ev.c)
 TReturn  == IsEvent("Return") /\ Return(Ev.c)
 TReturn0 == IsEvent("ReturnWithoutSave") /\ ReturnWithoutSave(Ev.c)
 \* what a proxy started now would read from the state file
-TFile    == IsEvent("File") /\ Ev.ok /\ Ev.cfg = file /\ UNCHANGED vars
+\* a sample taken by the real-time sampler between the hooks snap_created and snap_written of the writer may already see
+\* the rename that the writer's next line will bind
+TFile    == IsEvent("File") /\ Ev.ok /\ UNCHANGED vars
+              /\ \/ Ev.cfg = file
+                 \/ Ev.point = "poll" /\ \E c \in Cmds : phase[c] = "created" /\ Ev.cfg = data[c]
 
 TraceNext == /\ \/ TStart \/ TMem \/ TBegin \/ TAcquire \/ TList \/ TCreate \/ TWrite \/ TRename \/ TRelease \/ TReturn \/ TReturn0 \/ TFile
              /\ TLCSet(1, IF TLCGet(1) < l' THEN l' ELSE TLCGet(1))
